@@ -152,6 +152,29 @@ def check(prop, tier, only=None, verbose=False):
 
     results = run_jobs(jobs, workdir)
 
+    # unstripped replay pass: up to 40 sampled paths per condition re-run with txtorcon's logging statements in place
+    unstripped = []
+    try:
+        percond = {}
+        for r in results:
+            for smp in r.get('samples', []):
+                lst = percond.setdefault((r['job']['mod'], r['job']['cond']), [])
+                if smp.get('native') == 'ok' and len(lst) < 40:
+                    lst.append(smp['args'])
+        items = [{'mod': m, 'cond': c, 'args': a} for (m, c), lst in percond.items() for a in lst]
+        if items:
+            fin, fout = os.path.join(workdir, 'unstripped.in.json'), os.path.join(workdir, 'unstripped.out.json')
+            with open(fin, 'w') as f:
+                json.dump(items, f)
+            env = dict(os.environ)
+            env['VERIF_NO_STRIP'] = '1'
+            env['PYTHONHASHSEED'] = '0'
+            subprocess.run([sys.executable, '-m', 'vlib.unstripped', fin, fout], cwd=VERIF, env=env, timeout=1800,
+                           stdout=subprocess.DEVNULL, stderr=subprocess.DEVNULL)
+            unstripped = json.load(open(fout))
+    except Exception as e:
+        unstripped = [{'status': 'error', 'reason': 'unstripped replay pass did not run: %r' % (e,), 'mod': '', 'cond': '', 'args': {}}]
+
     infra = []
     violations = []
     known_hits = {}
@@ -225,6 +248,22 @@ def check(prop, tier, only=None, verbose=False):
             else:
                 violations.append({'mod': j['mod'], 'cond': cname, 'args': c['args'],
                                    'reason': c['native_reason']})
+
+    n_unstripped = 0
+    for u in unstripped:
+        if u['status'] == 'ok':
+            n_unstripped += 1
+        elif u['status'] == 'fail':
+            divergences.append('%s %s: passes with the logging statements compiled away, fails with them: %s' % (u['cond'], json.dumps(u['args'])[:300], u['reason'][:300]))
+            hit = None
+            for f in findings:
+                if match_finding(f, u['cond'], u['reason'], unjson(u['args'])):
+                    hit = f
+                    break
+            if hit is None:
+                violations.append({'mod': u['mod'], 'cond': u['cond'], 'args': u['args'], 'reason': u['reason']})
+        elif u['status'] == 'error':
+            infra.append('unstripped replay: %s %s' % (u['cond'], u['reason'][-400:]))
 
     # vacuity guard: every condition must have reached its end state on some path
     for cname, n in per_cond_reached.items():
@@ -307,6 +346,7 @@ def check(prop, tier, only=None, verbose=False):
             'paths_ignored_by_precondition': tot['ignored'], 'paths_unknown': tot['unknown'],
             'known_findings_reproduced': [l for l in kf_lines],
             'engine_divergences': divergences[:20],
+            'replayed_with_logging_statements_in_place': n_unstripped,
             'repo': prelude.REPO,
         },
         'assumptions': info.get('assumptions', []),
@@ -353,6 +393,23 @@ def replay(path):
     fn = getattr(mod, d['cond'])
     st, reason, _r = run_native(mod, fn, unjson(d['args']))
     print('replay %s %s -> %s %s' % (d['cond'], json.dumps(d['args']), st, reason))
+    if st == 'ok':
+        # the counterexample may stem from the unstripped pass: replay it with txtorcon's logging statements in place
+        import tempfile
+        tmp = tempfile.mkdtemp(prefix='verif-replay-')
+        try:
+            fin, fout = os.path.join(tmp, 'in.json'), os.path.join(tmp, 'out.json')
+            with open(fin, 'w') as f:
+                json.dump([{'mod': d['mod'], 'cond': d['cond'], 'args': d['args']}], f)
+            env = dict(os.environ)
+            env['VERIF_NO_STRIP'] = '1'
+            subprocess.run([sys.executable, '-m', 'vlib.unstripped', fin, fout], cwd=VERIF, env=env, timeout=600)
+            u = json.load(open(fout))[0]
+            print('replay with logging statements in place -> %s %s' % (u['status'], u['reason']))
+            st = u['status']
+        finally:
+            import shutil
+            shutil.rmtree(tmp, ignore_errors=True)
     return 1 if st == 'fail' else (0 if st == 'ok' else 2)
 
 
